@@ -1,50 +1,12 @@
-/- C16 helper lemmas: only-latest for the attester handler, whose fetch ADDS to the epoch's descriptors without
-   resetting them — sound only when the epoch's map is empty at every fetch, which is an invariant of runs whose
-   event slots never go backwards (`envOK`). -/
+/- C16 helper lemmas: how the attester sub-functions treat the handler flags. -/
 import Ssv.Proofs.DutiesLatest
 
 namespace Ssv.Duties
-
-/-- no descriptor of epoch `ep` -/
-def Empty (st : HState) (ep : Nat) : Prop := ∀ e ∈ st.store, e.ep ≠ ep
-
-/-! ### attFetch -/
 
 theorem attFetch_flags (st : HState) (ep : Nat) (r : FetchRes) :
     (attFetch st ep r).1.fetchFirst = st.fetchFirst ∧ (attFetch st ep r).1.fetchCur = st.fetchCur ∧
     (attFetch st ep r).1.fetchNext = st.fetchNext ∧ (attFetch st ep r).1.indicesChanged = st.indicesChanged := by
   cases r <;> exact ⟨rfl, rfl, rfl, rfl⟩
-
-theorem attFetch_mem (st : HState) (ep : Nat) (r : FetchRes) :
-    ∀ e ∈ (attFetch st ep r).1.store, e ∈ st.store ∨ e.ep = ep := by
-  cases r with
-  | noIdx => exact fun e he => Or.inl he
-  | fail => exact fun e he => Or.inl he
-  | ok c ds =>
-    intro e he
-    rcases mem_addAll_inv _ _ he with h | ⟨d, _, rfl⟩
-    · exact Or.inl h
-    · exact Or.inr rfl
-
-theorem attFetch_fail (st : HState) (ep : Nat) (r : FetchRes) (h : (attFetch st ep r).2.1 = false) :
-    (attFetch st ep r).1 = st := by
-  cases r <;> first | rfl | cases h
-
-theorem attFetch_linv (n : Net) {st : HState} {m : LMon} (ep : Nat) (r : FetchRes) (h : LInv .att st m)
-    (hE : Empty st ep) : LInv .att (attFetch st ep r).1 (lrun .att n m (attFetch st ep r).2.2) := by
-  cases r with
-  | noIdx => exact h
-  | fail => exact h
-  | ok c ds =>
-    refine ⟨?_, h.ok⟩
-    intro e he hc
-    simp only [attFetch, lrun_cons, lrun_nil, LMon.step]
-    rcases mem_addAll_inv _ _ he with h1 | ⟨d, hd, rfl⟩
-    · simp only [hE e h1, if_false]
-      exact h.sub e h1 hc
-    · exact ⟨ds, by simp [attEntry, assigned], d, hd, rfl, rfl, Or.inr rfl⟩
-
-/-! ### second half of processFetching -/
 
 theorem attNext_flags (n : Net) (st : HState) (E t : Nat) (r : FetchRes) :
     (attFetchNextPart n st E t r).1.fetchFirst = st.fetchFirst ∧ (attFetchNextPart n st E t r).1.fetchCur = st.fetchCur ∧
@@ -61,48 +23,6 @@ theorem attNext_flags (n : Net) (st : HState) (E t : Nat) (r : FetchRes) :
       simp only [heq] at hf
       exact ⟨hf.1, hf.2.1, hf.2.2.2, fun h => by rw [← hf.2.2.1]; exact h⟩
   · exact ⟨rfl, rfl, rfl, fun h => h⟩
-
-theorem attNext_mem (n : Net) (st : HState) (E t : Nat) (r : FetchRes) :
-    ∀ e ∈ (attFetchNextPart n st E t r).1.store,
-      e ∈ st.store ∨ (e.ep = E + 1 ∧ attShouldFetchNext n t = true ∧ (attFetchNextPart n st E t r).1.fetchNext = false) := by
-  have hm := attFetch_mem st (E + 1) r
-  have hfail := attFetch_fail st (E + 1) r
-  unfold attFetchNextPart
-  split
-  · rename_i hc
-    simp only [Bool.and_eq_true] at hc
-    split
-    · rename_i st2 o heq
-      simp only [heq] at hm
-      intro e he
-      rcases hm e he with h | h
-      · exact Or.inl h
-      · exact Or.inr ⟨h, hc.2, rfl⟩
-    · rename_i st2 o heq
-      simp only [heq] at hfail
-      intro e he
-      rw [hfail trivial] at he
-      exact Or.inl he
-  · exact fun e he => Or.inl he
-
-theorem attNext_linv (n : Net) {st : HState} {m : LMon} (E t : Nat) (r : FetchRes) (h : LInv .att st m)
-    (hE : st.fetchNext = true → attShouldFetchNext n t = true → Empty st (E + 1)) :
-    LInv .att (attFetchNextPart n st E t r).1 (lrun .att n m (attFetchNextPart n st E t r).2) := by
-  unfold attFetchNextPart
-  split
-  · rename_i hc
-    simp only [Bool.and_eq_true] at hc
-    have := attFetch_linv n (E + 1) r h (hE hc.1 hc.2)
-    split
-    · rename_i st2 o heq
-      simp only [heq] at this
-      exact this.mono (fun x hx => hx)
-    · rename_i st2 o heq
-      simp only [heq] at this
-      exact this
-  · exact h
-
-/-! ### processFetching -/
 
 theorem attPF_flags (n : Net) (st : HState) (E t : Nat) (r1 r2 : FetchRes) :
     (attProcessFetching n st E t r1 r2).1.fetchFirst = st.fetchFirst ∧
@@ -124,77 +44,6 @@ theorem attPF_flags (n : Net) (st : HState) (E t : Nat) (r1 r2 : FetchRes) :
   · have hn := attNext_flags n st E t r1
     exact ⟨hn.1, hn.2.2.1, fun h => by rw [← hn.2.1]; exact h, hn.2.2.2⟩
 
-theorem attPF_mem (n : Net) (st : HState) (E t : Nat) (r1 r2 : FetchRes) :
-    ∀ e ∈ (attProcessFetching n st E t r1 r2).1.store,
-      e ∈ st.store ∨ (e.ep = E ∧ st.fetchCur = true) ∨
-      (e.ep = E + 1 ∧ attShouldFetchNext n t = true ∧ (attProcessFetching n st E t r1 r2).1.fetchNext = false) := by
-  have hm := attFetch_mem st E r1
-  unfold attProcessFetching
-  split
-  · rename_i hfc
-    split
-    · rename_i st1 o1 heq
-      simp only [heq] at hm
-      intro e he
-      rcases hm e he with h | h
-      · exact Or.inl h
-      · exact Or.inr (Or.inl ⟨h, hfc⟩)
-    · rename_i st1 o1 heq
-      simp only [heq] at hm
-      intro e he
-      rcases attNext_mem n { st1 with fetchCur := false } E t r2 e he with h | h
-      · rcases hm e h with h | h
-        · exact Or.inl h
-        · exact Or.inr (Or.inl ⟨h, hfc⟩)
-      · exact Or.inr (Or.inr h)
-  · intro e he
-    rcases attNext_mem n st E t r1 e he with h | h
-    · exact Or.inl h
-    · exact Or.inr (Or.inr h)
-
-/-- if `fetchCurrentEpoch` is still set afterwards, the fetch of the current epoch failed and nothing was stored -/
-theorem attPF_curTrue (n : Net) (st : HState) (E t : Nat) (r1 r2 : FetchRes)
-    (h : (attProcessFetching n st E t r1 r2).1.fetchCur = true) (hfc : st.fetchCur = true) :
-    (attProcessFetching n st E t r1 r2).1.store = st.store := by
-  have hfail := attFetch_fail st E r1
-  unfold attProcessFetching at h ⊢
-  simp only [hfc, if_true] at h ⊢
-  split
-  · rename_i st1 o1 heq
-    simp only [heq] at hfail
-    rw [hfail trivial]
-  · rename_i st1 o1 heq
-    simp only [heq] at h
-    have hn := attNext_flags n { st1 with fetchCur := false } E t r2
-    rw [hn.2.1] at h
-    cases h
-
-theorem attPF_linv (n : Net) {st : HState} {m : LMon} (E t : Nat) (r1 r2 : FetchRes) (h : LInv .att st m)
-    (hE1 : st.fetchCur = true → Empty st E)
-    (hE2 : st.fetchNext = true → attShouldFetchNext n t = true → Empty st (E + 1)) :
-    LInv .att (attProcessFetching n st E t r1 r2).1 (lrun .att n m (attProcessFetching n st E t r1 r2).2) := by
-  have hm := attFetch_mem st E r1
-  have hf := attFetch_flags st E r1
-  unfold attProcessFetching
-  split
-  · rename_i hfc
-    have h1 := attFetch_linv n E r1 h (hE1 hfc)
-    split
-    · rename_i st1 o1 heq
-      simp only [heq] at h1
-      exact h1
-    · rename_i st1 o1 heq
-      simp only [heq] at h1 hm hf
-      simp only [lrun_append]
-      apply attNext_linv n (st := { st1 with fetchCur := false }) E t r2 (h1.mono (fun x hx => hx))
-      intro hfn hsh e he
-      rcases hm e he with h2 | h2
-      · exact hE2 (by rw [← hf.2.2.1]; exact hfn) hsh e h2
-      · omega
-  · exact attNext_linv n E t r1 h hE2
-
-/-! ### the environment invariant of the attester handler -/
-
 theorem attPost_flags (n : Net) (st : HState) (slot : Nat) :
     (attPost n st slot).fetchFirst = st.fetchFirst ∧ (attPost n st slot).fetchCur = st.fetchCur ∧
     (attPost n st slot).indicesChanged = st.indicesChanged ∧
@@ -209,306 +58,25 @@ theorem attPost_sub (n : Net) (st : HState) (slot : Nat) : ∀ e ∈ (attPost n 
   · exact he
   · exact (mem_reset.mp he).1
 
-structure AEnv (n : Net) (st : HState) (lt : Option Nat) (now : Nat) : Prop where
-  i1 : st.fetchFirst = true → st.fetchCur = true
-  i2 : st.indicesChanged = true → st.fetchCur = true
-  ltnow : ∀ t, lt = some t → t ≤ now
-  e3 : ∀ e ∈ st.store, ∃ t, lt = some t ∧
-        (e.ep ≤ n.epoch t ∨ (e.ep = n.epoch t + 1 ∧ attShouldFetchNext n t = true))
-  p1 : st.fetchCur = true → ∀ e ∈ st.store, e.ep ≤ n.epoch now ∧
-        ((st.fetchFirst = true ∨ st.indicesChanged = false) → e.ep ≠ n.epoch now)
-  p2 : st.fetchNext = true → ∀ e ∈ st.store, e.ep ≤ n.epoch now
+theorem attNext_keep (n : Net) (st : HState) (E t : Nat) (r : FetchRes)
+    (h : attShouldFetchNext n t = false) : (attFetchNextPart n st E t r).1.fetchNext = st.fetchNext := by
+  unfold attFetchNextPart
+  simp [h]
 
-/-- descriptors that satisfied `e3` for the previous tick satisfy it for a later tick `t0` -/
-theorem e3_step (n : Net) {lt : Option Nat} {t0 : Nat} (hlt : ∀ t, lt = some t → t < t0) {e : Entry}
-    (h : ∃ t, lt = some t ∧ (e.ep ≤ n.epoch t ∨ (e.ep = n.epoch t + 1 ∧ attShouldFetchNext n t = true))) :
-    e.ep ≤ n.epoch t0 ∨ (e.ep = n.epoch t0 + 1 ∧ attShouldFetchNext n t0 = true) := by
-  obtain ⟨t, ht, h⟩ := h
-  have hle : t ≤ t0 := Nat.le_of_lt (hlt t ht)
-  have hm := epoch_mono n hle
-  rcases h with h | ⟨h1, h2⟩
-  · exact Or.inl (by omega)
-  · by_cases heq : n.epoch t = n.epoch t0
-    · exact Or.inr ⟨by omega, attShould_mono n heq hle h2⟩
-    · exact Or.inl (by omega)
-
-theorem mid_not_should (n : Net) (t : Nat) (h : (t % n.spe == n.spe / 2 - 2) = true) : attShouldFetchNext n t = false := by
-  simp only [beq_iff_eq] at h
-  simp only [attShouldFetchNext, decide_eq_false_iff_not]
-  omega
-
-/-- common part of both tick paths: from the state `s0` that `processFetching` starts in -/
-theorem attTick_env_core (n : Net) {st s0 : HState} {lt : Option Nat} {now t0 : Nat} (r1 r2 : FetchRes)
-    (h : AEnv n st lt now) (hlt : ∀ t, lt = some t → t < t0) (hnow : now ≤ t0)
-    (hsub : ∀ e ∈ s0.store, e ∈ st.store)
-    (hfc : s0.fetchCur = st.fetchCur) (hfn : s0.fetchNext = st.fetchNext)
-    (hff : s0.fetchFirst = false) (hic : s0.indicesChanged = false)
-    (hE1 : s0.fetchCur = true → Empty s0 (n.epoch t0)) :
-    AEnv n (attPost n (attProcessFetching n s0 (n.epoch t0) t0 r1 r2).1 t0) (some t0) t0 := by
-  have hpf := attPF_flags n s0 (n.epoch t0) t0 r1 r2
-  have hpm := attPF_mem n s0 (n.epoch t0) t0 r1 r2
-  have hpc := attPF_curTrue n s0 (n.epoch t0) t0 r1 r2
-  have hqf := attPost_flags n (attProcessFetching n s0 (n.epoch t0) t0 r1 r2).1 t0
-  have hqs := attPost_sub n (attProcessFetching n s0 (n.epoch t0) t0 r1 r2).1 t0
-  generalize (attProcessFetching n s0 (n.epoch t0) t0 r1 r2).1 = s at hpf hpm hpc hqf hqs
-  have hem := epoch_mono n hnow
-  have he3 : ∀ e ∈ s.store, e.ep ≤ n.epoch t0 ∨ (e.ep = n.epoch t0 + 1 ∧ attShouldFetchNext n t0 = true) := by
-    intro e he
-    rcases hpm e he with h1 | h1 | h1
-    · exact e3_step n hlt (h.e3 e (hsub e h1))
-    · exact Or.inl (by omega)
-    · exact Or.inr ⟨h1.1, h1.2.1⟩
-  refine ⟨?_, ?_, ?_, ?_, ?_, ?_⟩
-  · intro hf; rw [hqf.1, hpf.1, hff] at hf; cases hf
-  · intro hi; rw [hqf.2.2.1, hpf.2.1, hic] at hi; cases hi
-  · intro t ht; cases ht; exact Nat.le_refl _
-  · intro e he
-    exact ⟨t0, rfl, he3 e (hqs e he)⟩
-  · intro hc e he
-    rw [hqf.2.1] at hc
-    have hc0 := hpf.2.2.1 hc
-    have hst := hpc hc hc0
-    have he0 : e ∈ s0.store := by rw [← hst]; exact hqs e he
-    have := (h.p1 (by rw [← hfc]; exact hc0) e (hsub e he0)).1
-    exact ⟨by omega, fun _ => hE1 hc0 e he0⟩
-  · intro hn e he
-    have hes := hqs e he
-    by_cases hsh : attShouldFetchNext n t0 = true
-    · -- the mid-epoch flag is not set at a slot that satisfies shouldFetchNexEpoch
-      have hmid : (t0 % n.spe == n.spe / 2 - 2) = false := by
-        cases hm : (t0 % n.spe == n.spe / 2 - 2) with
-        | false => rfl
-        | true => rw [mid_not_should n t0 hm] at hsh; cases hsh
-      rw [hqf.2.2.2, hmid, Bool.or_false] at hn
-      rcases hpm e hes with h1 | h1 | h1
-      · have := h.p2 (by rw [← hfn]; exact hpf.2.2.2 hn) e (hsub e h1)
-        omega
-      · omega
-      · rw [hn] at h1; cases h1.2.2
-    · rcases he3 e hes with h1 | h1
-      · exact h1
-      · exact absurd h1.2 hsh
-
-theorem attTick_envL (n : Net) {st : HState} {m : LMon} {lt : Option Nat} {now : Nat} (t0 clock : Nat) (r1 r2 : FetchRes)
-    (h : AEnv n st lt now) (hl : LInv .att st m) (hlt : ∀ t, lt = some t → t < t0) (hnow : now ≤ t0) :
-    AEnv n (attTick n st t0 clock r1 r2).1 (some t0) t0 ∧
-    LInv .att (attTick n st t0 clock r1 r2).1 (lrun .att n m (attTick n st t0 clock r1 r2).2) := by
-  have hem := epoch_mono n hnow
-  obtain ⟨store, ff, fc, fn, ic⟩ := st
-  cases ff
-  · -- regular tick
-    let s0 : HState := if ic = true then ⟨store.reset (n.epoch t0), false, fc, fn, false⟩ else ⟨store, false, fc, fn, ic⟩
-    have hs0 : s0 = if ic = true then ⟨store.reset (n.epoch t0), false, fc, fn, false⟩ else ⟨store, false, fc, fn, ic⟩ := rfl
-    have hsub : ∀ e ∈ s0.store, e ∈ store := by
-      intro e he; rw [hs0] at he; split at he
-      · exact (mem_reset.mp he).1
-      · exact he
-    have hfc : s0.fetchCur = fc := by rw [hs0]; split <;> rfl
-    have hfn : s0.fetchNext = fn := by rw [hs0]; split <;> rfl
-    have hff : s0.fetchFirst = false := by rw [hs0]; split <;> rfl
-    have hic : s0.indicesChanged = false := by
-      rw [hs0]; split
-      · rfl
-      · rename_i hh; simpa using hh
-    have hE1 : s0.fetchCur = true → Empty s0 (n.epoch t0) := by
-      intro hc e he
-      rw [hs0] at he
-      split at he
-      · exact (mem_reset.mp he).2
-      · rename_i hh
-        have hicf : ic = false := by simpa using hh
-        have := h.p1 (by rw [← hfc]; exact hc) e he
-        have h2 := this.2 (Or.inr hicf)
-        have h1 := this.1
-        omega
-    have hE2 : s0.fetchNext = true → attShouldFetchNext n t0 = true → Empty s0 (n.epoch t0 + 1) := by
-      intro hn _ e he
-      have := h.p2 (by rw [← hfn]; exact hn) e (hsub e he)
-      omega
-    constructor
-    · simp only [attTick, Bool.false_eq_true, if_false]
-      exact attTick_env_core n r1 r2 h hlt hnow hsub hfc hfn hff hic hE1
-    · simp only [attTick, Bool.false_eq_true, if_false, lrun_append]
-      have h1 := linv_exec .att n t0 clock hl
-      have h2 := attPF_linv n (st := s0) (n.epoch t0) t0 r1 r2 (h1.mono hsub) hE1 hE2
-      exact h2.of_store (attPost_store _ _ _)
-  · -- fetch-first tick
-    have hfc : fc = true := h.i1 rfl
-    let s0 : HState := ⟨store, false, fc, fn, false⟩
-    have hE1 : s0.fetchCur = true → Empty s0 (n.epoch t0) := by
-      intro _ e he
-      have := h.p1 hfc e he
-      have h2 := this.2 (Or.inl rfl)
-      have h1 := this.1
-      omega
-    have hE2 : s0.fetchNext = true → attShouldFetchNext n t0 = true → Empty s0 (n.epoch t0 + 1) := by
-      intro hn _ e he
-      have := h.p2 hn e he
-      omega
-    constructor
-    · simp only [attTick, if_true]
-      exact attTick_env_core n (s0 := s0) r1 r2 h hlt hnow (fun e he => he) rfl rfl rfl rfl hE1
-    · simp only [attTick, if_true, lrun_append]
-      have h1 := attPF_linv n (st := s0) (n.epoch t0) t0 r1 r2 (hl.mono (fun x hx => hx)) hE1 hE2
-      have h2 := linv_exec .att n t0 clock h1
-      exact h2.of_store (attPost_store _ _ _)
-
-/-- a descriptor known to the `e3` clause is not beyond the epoch of a later slot `r`, unless it belongs to the
-    next epoch and `r` is in the fetch-next window (in which case the handlers reset that epoch) -/
-theorem e3_le (n : Net) {lt : Option Nat} {r : Nat} {e : Entry} (hlt : ∀ t, lt = some t → t ≤ r)
-    (h3 : ∃ t, lt = some t ∧ (e.ep ≤ n.epoch t ∨ (e.ep = n.epoch t + 1 ∧ attShouldFetchNext n t = true)))
-    (hne : attShouldFetchNext n r = true → e.ep ≠ n.epoch r + 1) : e.ep ≤ n.epoch r := by
-  obtain ⟨t, ht, h⟩ := h3
-  have hle := hlt t ht
-  have hm := epoch_mono n hle
-  rcases h with h | ⟨h1, h2⟩
-  · omega
-  · by_cases heq : n.epoch t = n.epoch r
-    · have := hne (attShould_mono n heq hle h2)
-      omega
-    · omega
-
-theorem attReorg_env (n : Net) {st : HState} {lt : Option Nat} {now : Nat} (r : Nat) (prev cur : Bool)
-    (h : AEnv n st lt now) (hnow : now ≤ r) : AEnv n (attReorg n st r prev cur) lt r := by
-  have hem := epoch_mono n hnow
-  have hltr : ∀ t, lt = some t → t ≤ r := fun t ht => Nat.le_trans (h.ltnow t ht) hnow
-  obtain ⟨store, ff, fc, fn, ic⟩ := st
-  have hold : ∀ (fn' : Bool), (fn' = true → fn = true) →
-      AEnv n ⟨store, ff, fc, fn', ic⟩ lt r := by
-    intro fn' hfn'
-    refine ⟨h.i1, h.i2, hltr, h.e3, ?_, ?_⟩
-    · intro hc e he
-      have := h.p1 hc e he
-      exact ⟨by have := this.1; omega, fun hcnd => by have h1 := this.1; have h2 := this.2 hcnd; omega⟩
-    · intro hn e he
-      have := h.p2 (hfn' hn) e he
-      omega
-  cases prev
-  · cases cur
-    · simp only [attReorg, Bool.false_eq_true, if_false]; exact hold fn (fun x => x)
-    · cases hsh : attShouldFetchNext n r
-      · simp only [attReorg, Bool.false_eq_true, if_false, if_true, hsh]; exact hold fn (fun x => x)
-      · simp only [attReorg, Bool.false_eq_true, if_false, if_true, hsh]
-        refine ⟨h.i1, h.i2, hltr, fun e he => h.e3 e (mem_reset.mp he).1, ?_, ?_⟩
-        · intro hc e he
-          obtain ⟨he0, _⟩ := mem_reset.mp he
-          have := h.p1 hc e he0
-          exact ⟨by have := this.1; omega, fun hcnd => by have h1 := this.1; have h2 := this.2 hcnd; omega⟩
-        · intro _ e he
-          obtain ⟨he0, hne⟩ := mem_reset.mp he
-          exact e3_le n hltr (h.e3 e he0) (fun _ => hne)
-  · cases hsh : attShouldFetchNext n r
-    · simp only [attReorg, if_true, hsh, Bool.false_eq_true, if_false]
-      refine ⟨fun _ => rfl, fun _ => rfl, hltr, fun e he => h.e3 e (mem_reset.mp he).1, ?_, ?_⟩
-      · intro _ e he
-        obtain ⟨he0, hne⟩ := mem_reset.mp he
-        exact ⟨e3_le n hltr (h.e3 e he0) (fun hh => by rw [hsh] at hh; cases hh), fun _ => hne⟩
-      · intro hn e he
-        obtain ⟨he0, _⟩ := mem_reset.mp he
-        have := h.p2 hn e he0
-        omega
-    · simp only [attReorg, if_true, hsh]
-      refine ⟨fun _ => rfl, fun _ => rfl, hltr, fun e he => h.e3 e (mem_reset.mp (mem_reset.mp he).1).1, ?_, ?_⟩
-      · intro _ e he
-        obtain ⟨he1, hne1⟩ := mem_reset.mp he
-        obtain ⟨he0, hne0⟩ := mem_reset.mp he1
-        exact ⟨e3_le n hltr (h.e3 e he0) (fun _ => hne1), fun _ => hne0⟩
-      · intro _ e he
-        obtain ⟨he1, hne1⟩ := mem_reset.mp he
-        obtain ⟨he0, _⟩ := mem_reset.mp he1
-        exact e3_le n hltr (h.e3 e he0) (fun _ => hne1)
-
-theorem attIndices_env (n : Net) {st : HState} {lt : Option Nat} {now : Nat} (c : Nat)
-    (h : AEnv n st lt now) (hnow : now ≤ c) : AEnv n (attIndices n st c) lt c := by
-  have hem := epoch_mono n hnow
-  have hltr : ∀ t, lt = some t → t ≤ c := fun t ht => Nat.le_trans (h.ltnow t ht) hnow
-  obtain ⟨store, ff, fc, fn, ic⟩ := st
-  cases hsh : attShouldFetchNext n c
-  · simp only [attIndices, hsh, Bool.false_eq_true, if_false]
-    refine ⟨fun _ => rfl, fun _ => rfl, hltr, h.e3, ?_, ?_⟩
-    · intro _ e he
-      refine ⟨e3_le n hltr (h.e3 e he) (fun hh => by rw [hsh] at hh; cases hh), ?_⟩
-      intro hcnd
-      rcases hcnd with hf | hi
-      · have := h.p1 (h.i1 hf) e he
-        have h1 := this.1; have h2 := this.2 (Or.inl hf); omega
-      · cases hi
-    · intro hn e he
-      have := h.p2 hn e he
-      omega
-  · simp only [attIndices, hsh, if_true]
-    refine ⟨fun _ => rfl, fun _ => rfl, hltr, fun e he => h.e3 e (mem_reset.mp he).1, ?_, ?_⟩
-    · intro _ e he
-      obtain ⟨he0, hne⟩ := mem_reset.mp he
-      refine ⟨e3_le n hltr (h.e3 e he0) (fun _ => hne), ?_⟩
-      intro hcnd
-      rcases hcnd with hf | hi
-      · have := h.p1 (h.i1 hf) e he0
-        have h1 := this.1; have h2 := this.2 (Or.inl hf); omega
-      · cases hi
-    · intro _ e he
-      obtain ⟨he0, hne⟩ := mem_reset.mp he
-      exact e3_le n hltr (h.e3 e he0) (fun _ => hne)
-
-theorem attStore_sub_of_notice (n : Net) (st : HState) :
-    (∀ r p c, ∀ e ∈ (attReorg n st r p c).store, e ∈ st.store) ∧ (∀ c, ∀ e ∈ (attIndices n st c).store, e ∈ st.store) := by
-  constructor
-  · intro r p c e he
-    unfold attReorg at he
-    split at he
-    · split at he
-      · exact (mem_reset.mp (mem_reset.mp he).1).1
-      · exact (mem_reset.mp he).1
-    · split at he
-      · split at he
-        · exact (mem_reset.mp he).1
-        · exact he
-      · exact he
-  · intro c e he
-    unfold attIndices at he
-    split at he
-    · exact (mem_reset.mp he).1
-    · exact he
-
-/-! ### whole runs -/
-
-theorem att_onlyLatest_runFrom (n : Net) : ∀ (evs : List Event) (st : HState) (m : LMon) (lt : Option Nat) (now : Nat),
-    AEnv n st lt now → LInv .att st m → envOK lt now evs = true →
-    (lrun .att n m (runFrom .att n st evs)).ok = true := by
-  intro evs
-  induction evs with
-  | nil => intro st m lt now _ hl _; exact hl.ok
-  | cons e es ih =>
-    intro st m lt now he hl henv
-    cases e with
-    | tick t0 clock r1 r2 =>
-      simp only [envOK, Bool.and_eq_true, decide_eq_true_eq] at henv
-      have hlt : ∀ t, lt = some t → t < t0 := by
-        intro t ht; subst ht; simpa using henv.1.1
-      obtain ⟨h1, h2⟩ := attTick_envL n t0 clock r1 r2 he hl hlt henv.1.2
-      simp only [runFrom, lrun_append]
-      exact ih _ _ _ _ h1 h2 henv.2
-    | reorg r p c =>
-      simp only [envOK, Bool.and_eq_true, decide_eq_true_eq] at henv
-      simp only [runFrom, step, attStep, List.nil_append]
-      exact ih _ _ _ _ (attReorg_env n r p c he henv.1) (hl.mono ((attStore_sub_of_notice n st).1 r p c)) henv.2
-    | indices c =>
-      simp only [envOK, Bool.and_eq_true, decide_eq_true_eq] at henv
-      simp only [runFrom, step, attStep, List.nil_append]
-      exact ih _ _ _ _ (attIndices_env n c he henv.1) (hl.mono ((attStore_sub_of_notice n st).2 c)) henv.2
-
-theorem att_onlyLatest_run (n : Net) (clock0 : Nat) (r0 : FetchRes) (evs : List Event)
-    (henv : envOK none clock0 evs = true) : onlyLatestOK .att n (run .att n clock0 r0 evs) = true := by
-  unfold onlyLatestOK run
-  have henv0 : AEnv n attInit none clock0 :=
-    { i1 := fun _ => rfl
-      i2 := fun h => nomatch h
-      ltnow := fun t ht => nomatch ht
-      e3 := fun e he => nomatch he
-      p1 := fun _ e he => nomatch he
-      p2 := fun _ e he => nomatch he }
-  have hl0 : LInv .att attInit LMon.init := ⟨fun e he => (nomatch he), rfl⟩
-  have := att_onlyLatest_runFrom n evs attInit LMon.init none clock0 henv0 hl0 henv
-  simpa [initH, lrun] using this
+/-- outside the fetch-next window `processFetching` leaves `fetchNextEpoch` alone -/
+theorem attPF_keep (n : Net) (st : HState) (E t : Nat) (r1 r2 : FetchRes)
+    (h : attShouldFetchNext n t = false) : (attProcessFetching n st E t r1 r2).1.fetchNext = st.fetchNext := by
+  have hf := attFetch_flags st E r1
+  unfold attProcessFetching
+  split
+  · split
+    · rename_i st1 o1 heq
+      simp only [heq] at hf
+      exact hf.2.2.1
+    · rename_i st1 o1 heq
+      simp only [heq] at hf
+      rw [attNext_keep n _ E t r2 h]
+      exact hf.2.2.1
+  · exact attNext_keep n st E t r1 h
 
 end Ssv.Duties
